@@ -5,6 +5,7 @@ package model
 
 import (
 	"math"
+	"unicode/utf8"
 )
 
 const paddingForFieldNames = 4096
@@ -76,5 +77,9 @@ func cropString(str string, length int) string {
 
 	truncationIndicator := `...`
 	length = length - len(truncationIndicator)
+	// do not cut inside a multi-byte character: the marshaller would replace the torn bytes
+	for length > 0 && !utf8.RuneStart(str[length]) {
+		length--
+	}
 	return str[:length] + truncationIndicator
 }
